@@ -28,6 +28,7 @@ type layout struct {
 	files map[string]string
 	args  []string // goderive arguments
 	dirs  []string // directories that must hold a derived.gen.go afterwards ("." = module root)
+	class string   // class of the direct finding when the layout fails ("" = c01-layout)
 }
 
 const libTree = "package p\n\ntype Tree struct {\n\tName     string\n\tChildren []*Tree\n\tAttrs    map[string]int\n}\n\n" +
@@ -63,6 +64,14 @@ func layoutList() []layout {
 	add(layout{name: "main-package-with-external-test", args: []string{"."}, dirs: []string{"."},
 		files: map[string]string{"main.go": "package main\n\ntype T struct{ A []int }\n\nfunc eq(a, b *T) bool { return deriveEqual(a, b) }\n\nfunc main() {}\n",
 			"main_test.go": "package main_test\n\nfunc answer() int { return 42 }\n", "in_test.go": "package main\n\nfunc h(a *T) uint64 { return deriveHash(a) }\n"}})
+	// derive calls in the external test package itself (call-site form "_test file"): package p_test needs generated
+	// functions of its own, in a file of package p_test
+	extTestDerive := "package p_test\n\nimport \"p\"\n\nfunc cloneEqual(t *p.Tree) bool { return deriveClone(t).Equal(t) }\n\nfunc names(m map[string]*p.Tree) []string { return deriveSort(deriveKeys(m)) }\n"
+	add(layout{name: "derive-calls-in-external-test-package", args: []string{"."}, dirs: []string{"."}, class: "c01-derive-call-in-external-test-package",
+		files: map[string]string{"tree.go": libTree, "tree_test.go": extTestDerive}})
+	add(layout{name: "derive-calls-only-in-external-test-package", args: []string{"."}, dirs: nil, class: "c01-derive-call-in-external-test-package",
+		files: map[string]string{"tree.go": "package p\n\ntype Tree struct {\n\tName  string\n\tAttrs map[string]int\n}\n",
+			"tree_test.go": "package p_test\n\nimport \"p\"\n\nfunc same(a, b *p.Tree) bool { return deriveEqual(a, b) }\n"}})
 	// --- several directories in one run ---
 	// alphabetical order both ways: a imports b; y imports x is the other direction (x before y)
 	leaf := "type Leaf struct {\n\tN int\n\tL []string\n}\n\nfunc EqLeaf(a, b *Leaf) bool { return deriveEqual(a, b) }\n"
@@ -115,8 +124,12 @@ func layouts(cfg hx.Config, meta *hx.Meta) {
 		if cls == "panic" || cls == "timeout" {
 			return // C09
 		}
+		class := l.class
+		if class == "" {
+			class = "c01-layout"
+		}
 		if cls != "ok" {
-			meta.AddDirect(hx.Direct{Class: "c01-layout", What: "goderive fails (" + cls + ") on " + what,
+			meta.AddDirect(hx.Direct{Class: class, What: "goderive fails (" + cls + ") on " + what,
 				Files: l.files, Cmd: "goderive " + strings.Join(l.args, " "), Output: hx.Truncate(g.Out, 2000)})
 			return
 		}
@@ -137,7 +150,7 @@ func layouts(cfg hx.Config, meta *hx.Meta) {
 			if v.Exit != 0 {
 				msg += "; the module does not type-check"
 			}
-			meta.AddDirect(hx.Direct{Class: "c01-layout", What: msg, Files: out,
+			meta.AddDirect(hx.Direct{Class: class, What: msg, Files: out,
 				Cmd: "goderive " + strings.Join(l.args, " ") + " && go vet ./...", Output: hx.Truncate(g.Out+"\n"+v.Out, 2500)})
 		}
 	})
